@@ -72,6 +72,15 @@ func TestSweep(t *testing.T) {
 		}
 		Oracle.One(t, env, rec, "sweep", &Case{S: pr[0], B: pr[1], C: C, Kr: fr + 2, A: 1, Bf: fr + 1, Ops: []Op{{Kind: "writeStriped", Lens: lens, Vals: vals}, {Kind: "readStriped", Lens: lens}}})
 	}
+	// more than 2^20 samples moved by one call (sizes that are not multiples of 2, 3, 4 or 16)
+	for i, pr := range [][2]string{{"int16", "int16"}, {"float32", "float64"}, {"uint8", "uint8"}} {
+		C := 1 + i
+		fr := (1<<20+7+2*i)/C + 1
+		n := C * fr
+		for _, kind := range []string{"write", "read"} {
+			Oracle.One(t, env, rec, "sweep", &Case{S: pr[0], B: pr[1], C: C, Kr: fr + 1, A: 1, Bf: fr + 1, Ops: []Op{{Kind: "write", N: n - 1, Vals: vals}, {Kind: kind, N: n + 1, Vals: vals}}})
+		}
+	}
 	// +0 and -0 are different samples: written over each other in both orders, through both writers
 	pz, nz := kit.FV(0), kit.FV(math.Copysign(0, -1))
 	for _, pr := range [][2]string{{"float32", "float32"}, {"float64", "float64"}, {"float32", "float64"}, {"float64", "float32"}} {
